@@ -1,5 +1,145 @@
-(* C17 -- online against a conforming DC (statements only; proofs in Proofs/C17*.v). WORK IN PROGRESS *)
-From V Require Import Prelude.Base gen.K_online.
-Theorem C17_sync_async_partial : twin_ncrypt_unprotect_secret = true /\ twin_ncrypt_protect_secret = true.
-Proof. split; reflexivity. Qed.
+(* C17 -- Online against a conforming DC: faithful requests, correct results, sync = async.
+   Statements only; proofs in Proofs/C17Consts.v, Proofs/C17.v, Proofs/C17Examples.v.
+   Model: Model/Conversation.v = _sync_get_key / _async_get_key and the call sites of the four public functions, composed from the
+   models of C11 / C13 / C14 / C15 / C16 / C18.  Argument tuples, (-1,-1,-1), contexts, tower, opnums, the verification trailer and the
+   fixed Bind fields are regenerated from the source (gen/K_online.v, gen/C_online.v).  The security context (wrap / unwrap), the
+   provider script and the peer script are arbitrary in every statement. `gk sd rk l0 l1 l2` is the argument tuple as a record;
+   wf_getkey: the SD is shorter than 4 GiB, the root key id has 16 octets, L0/L1/L2 are 32-bit signed values. *)
+From V Require Import Prelude.Base Prelude.PyInt Prelude.PySlice.
+From V Require Import gen.K_client gen.C_client gen.C_rpc gen.C_gkdi gen.K_online gen.C_online.
+From V Require Import Model.Pdu Model.Request Model.Bind Model.Verification Model.Epm.
+From V Require Import Model.Handshake Model.Framing Model.Seal Model.Recv.
+From V Require Import Model.Types Model.Gkdi Model.Conversation Spec.GkdiLayout.
+From V Require Import Proofs.GkdiGetKey Proofs.GkdiEnvelope Proofs.C13 Proofs.C17Consts Proofs.C17 Proofs.C17Examples.
+
+(* ---- request fidelity ----------------------------------------------------------------------------------------------------
+   unprotect: whatever the peer does, if a GetKey request goes out then the stub inside the sealed region is the NDR64 encoding
+   (independent marshaller of Spec/GkdiLayout.v, written from MS-GKDI 3.1.4.1 / MS-RPCE 2.2.5) of exactly
+   (target SD, root key id, L0, L1, L2) of the blob's key identifier, it comes first in the sealed region, and the request header
+   names the ISD_KEY presentation context and opnum 0 *)
+Theorem C17_unprotect_request : forall (wrap : wrap_fn) (unwrap : unwrap_fn) pv f legs dc sd kid r t wire oargs,
+  wf_getkey (gk sd (Some (kid_rkid kid)) (kid_l0 kid) (kid_l1 kid) (kid_l2 kid)) = true ->
+  unprotect_get_key f wrap unwrap pv legs dc sd kid = (r, t) ->
+  tr_getkey_request t = Some (wire, oargs) ->
+  exists stub args,
+    ndr64_getkey_request sd (Some (kid_rkid kid)) (kid_l0 kid) (kid_l1 kid) (kid_l2 kid) = Some stub /\
+    oargs = Some args /\ wa_body args = sealed_region stub (Some c_onl_vt) /\
+    slice None (Some (len stub)) (wa_body args) = stub /\
+    slice (Some 16) (Some 24) (wa_header args) = fixed8 (len (wa_body args)) c_onl_isd_ctx_id c_onl_getkey_opnum.
+Proof. exact unprotect_request. Qed.
+Print Assumptions C17_unprotect_request.
+
+(* protect: the current key, (-1, -1, -1), with the optional root key id (null pointer when the caller gave none) *)
+Theorem C17_protect_request : forall (wrap : wrap_fn) (unwrap : unwrap_fn) pv f legs dc sd rk r t wire oargs,
+  wf_getkey (gk sd rk (-1) (-1) (-1)) = true ->
+  protect_get_key f wrap unwrap pv legs dc sd rk = (r, t) ->
+  tr_getkey_request t = Some (wire, oargs) ->
+  exists stub args,
+    ndr64_getkey_request sd rk (-1) (-1) (-1) = Some stub /\
+    oargs = Some args /\ wa_body args = sealed_region stub (Some c_onl_vt) /\
+    slice None (Some (len stub)) (wa_body args) = stub /\
+    slice (Some 16) (Some 24) (wa_header args) = fixed8 (len (wa_body args)) c_onl_isd_ctx_id c_onl_getkey_opnum.
+Proof. exact protect_request. Qed.
+Print Assumptions C17_protect_request.
+
+(* "exactly": the reference encoding is injective, so a DC decoding the stub recovers this tuple and no other *)
+Theorem C17_stub_determines_request : forall g1 g2 b, wf_getkey g1 = true -> wf_getkey g2 = true ->
+  ndr64_getkey_request (gk_target_sd g1) (gk_root_key_id g1) (gk_l0 g1) (gk_l1 g1) (gk_l2 g1) = Some b ->
+  ndr64_getkey_request (gk_target_sd g2) (gk_root_key_id g2) (gk_l0 g2) (gk_l1 g2) (gk_l2 g2) = Some b -> g1 = g2.
+Proof. exact ndr64_getkey_injective. Qed.
+Print Assumptions C17_stub_determines_request.
+
+(* ---- sealed at PKT_PRIVACY, with the interface verification trailer ----------------------------------------------------------
+   the security trailer names level 6 and the padding; the wire is the 24 header octets, then what the security context returned
+   for the whole stub region, then the trailer header and the signature; the region handed to the context is the stub, zero padding
+   to the next 4-byte boundary, the verification trailer (PCONTEXT | END for ISD_KEY / NDR64), and the declared padding -- nothing else *)
+Theorem C17_sealed_vt : forall (wrap : wrap_fn) (unwrap : unwrap_fn) pv f legs dc sd rk l0 l1 l2 r t wire oargs,
+  get_key_conversation f wrap unwrap pv legs dc sd rk l0 l1 l2 = (r, t) ->
+  tr_getkey_request t = Some (wire, oargs) ->
+  exists stub args pad,
+    GetKey_pack (gk sd rk l0 l1 l2) = Ok stub /\ oargs = Some args /\
+    wa_trailer args = trailer8 pv pad /\ index (wa_trailer args) 1 = Ok 6 /\ c_PKT_PRIVACY = 6 /\
+    index (wa_trailer args) 2 = Ok pad /\ 0 <= pad < 16 /\
+    len (wa_header args) = 24 /\ wa_sign args = tr_sign t /\
+    wire = wa_header args ++ fst (wrap (wa_header args) (wa_body args) (wa_trailer args) (wa_sign args)) ++ wa_trailer args
+           ++ snd (wrap (wa_header args) (wa_body args) (wa_trailer args) (wa_sign args)) /\
+    wa_body args = stub ++ zeros (k_vt_pad (len stub)) ++ c_onl_vt ++ zeros pad /\
+    (len stub + k_vt_pad (len stub)) mod 4 = 0 /\ 0 <= k_vt_pad (len stub) < 4 /\ len (wa_body args) mod 16 = 0 /\
+    c_onl_vt = verification_trailer_pack verification_trailer.
+Proof. exact sealed_vt. Qed.
+Print Assumptions C17_sealed_vt.
+
+(* ---- the result -------------------------------------------------------------------------------------------------------------
+   an envelope reaches the caller only if a PDU was read, its auth_len is non-zero and the security context unwrapped exactly
+   (24 header octets, the region up to the security trailer, the trailer header, the signature) under the negotiated sign flag (C16);
+   the envelope is decoded from the unwrapped RESPONSE; and when that response is what a conforming DC marshals -- the NDR64 reply
+   (Spec/GkdiLayout.v) of the packed envelope e, followed by the padding its security trailer declares -- the caller gets e itself.
+   Full design-level statement NOT proved as one theorem (listed in PARTIAL): "... and e then decrypts the blob / the blob produced
+   from e decrypts", which is C01-C03 composed with this. *)
+Theorem C17_result : forall (wrap : wrap_fn) (unwrap : unwrap_fn) pv f legs dc sd rk l0 l1 l2 env t,
+  get_key_conversation f wrap unwrap pv legs dc sd rk l0 l1 l2 = (Ok env, t) ->
+  exists pdu hdr rsp,
+    recv_pdu f (ds_getkey_stream dc) (ds_sched dc) = Ok pdu /\ pdu_header_unpack (firstn 16 pdu) = Ok hdr /\
+    h_auth_len hdr <> 0 /\
+    (let a := unwrap_slices hdr 24 (tr_sign t) pdu in
+     exists dec, unwrap (ua_header a) (ua_body a) (ua_trailer a) (ua_signature a) (tr_sign t) = Ok dec /\
+       exists body h st, pdu_split (assign_slice pdu 24 (h_frag_len hdr - (h_auth_len hdr + 8)) dec) = Ok (body, h, st) /\
+         h_packet_type h = c_PT_RESPONSE /\ response_unpack body h st = Ok rsp) /\
+    process_get_key_result (rs_stub_data rsp) (match rs_sec_trailer rsp with Some st => Some (st_pad_length st) | None => None end) = Ok env /\
+    (forall e out reply padding st, wf_env e = true -> GroupKeyEnvelope_pack e = Ok out -> ndr64_getkey_reply out 0 = Some reply ->
+       rs_stub_data rsp = reply ++ padding -> rs_sec_trailer rsp = Some st -> st_pad_length st = len padding -> env = e).
+Proof. exact result. Qed.
+Print Assumptions C17_result.
+
+(* ---- static data: the model's structured values are the library's objects ------------------------------------------------------- *)
+Theorem C17_static_data :
+  concat (map context_element_pack epm_contexts) = c_onl_epm_contexts /\
+  concat (map context_element_pack isd_key_contexts) = c_onl_isd_contexts /\
+  ept_map_pack ept_map_isd_key = c_onl_ept_map_stub /\
+  verification_trailer_pack verification_trailer = c_onl_vt /\ wf_commands verification_trailer = true /\
+  k_onl_prot_arg3 = -1 /\ k_onl_prot_arg4 = -1 /\ k_onl_prot_arg5 = -1 /\
+  k_onl_aprot_arg3 = -1 /\ k_onl_aprot_arg4 = -1 /\ k_onl_aprot_arg5 = -1 /\
+  c_onl_getkey_opnum = 0 /\ c_onl_isd_ctx_id = 0 /\ c_onl_ept_max_towers = 4 /\ c_onl_ept_tower_port = 135 /\
+  k_onl_unprot_sd_src = true /\ k_onl_aunprot_sd_src = true /\ k_onl_prot_sd_src = true /\ k_onl_aprot_sd_src = true.
+Proof.
+  exact (conj epm_contexts_packed (conj isd_contexts_packed (conj (proj1 ept_map_packed) (conj (proj1 vt_packed) (conj (proj2 vt_packed)
+    (conj (proj1 protect_minus_ones) (conj (proj1 (proj2 protect_minus_ones)) (conj (proj1 (proj2 (proj2 protect_minus_ones)))
+    (conj (proj1 (proj2 (proj2 (proj2 protect_minus_ones)))) (conj (proj1 (proj2 (proj2 (proj2 (proj2 protect_minus_ones)))))
+    (conj (proj2 (proj2 (proj2 (proj2 (proj2 protect_minus_ones))))) (conj eq_refl (conj eq_refl (conj eq_refl (conj eq_refl sd_sources))))))))))))))).
+Qed.
+Print Assumptions C17_static_data.
+
+(* ---- sync = async (PARTIAL) ----------------------------------------------------------------------------------------------------
+   Full statement (not a theorem): _sync_get_key and _async_get_key, and the two pairs of public functions, conduct the same
+   conversation and return the same results.
+   Proved: the public pairs are identical as normalised ASTs (twin kernels regenerated on every run); both flavours put the same
+   presentation context id into the ept_map request; and in the model the two flavours of the whole conversation coincide whenever the
+   two receive loops deliver the same PDUs (which C14 proves for every well-formed reply and every segmentation).
+   _sync_get_key / _async_get_key differ syntactically (benign) and are tied by the both-flavour correspondence online.refdc. *)
+Theorem C17_sync_async_partial :
+  twin_ncrypt_unprotect_secret = true /\ twin_ncrypt_protect_secret = true /\
+  k_onl_sync_epm_ctx c_onl_epm_ctx_id = k_onl_async_epm_ctx c_onl_epm_ctx_id /\
+  forall (wrap : wrap_fn) (unwrap : unwrap_fn) pv legs dc sd rk l0 l1 l2,
+    recv_pdu Sync (ds_ept_stream dc) (ds_sched dc) = recv_pdu Async (ds_ept_stream dc) (ds_sched dc) ->
+    recv_pdu Sync (ds_getkey_stream dc) (ds_sched dc) = recv_pdu Async (ds_getkey_stream dc) (ds_sched dc) ->
+    get_key_conversation Sync wrap unwrap pv legs dc sd rk l0 l1 l2 = get_key_conversation Async wrap unwrap pv legs dc sd rk l0 l1 l2.
+Proof. exact (conj eq_refl (conj eq_refl (conj epm_request_ctx_same flavours_agree))). Qed.
 Print Assumptions C17_sync_async_partial.
+
+(* ---- the hypotheses are satisfiable: a complete conversation with the reference DC, run inside Coq ------------------------------ *)
+Example C17_conversation_example :
+  exists env t wire args,
+    unprotect_get_key Sync ex_wrap ex_unwrap ex_pv ex_legs ex_dc ex_sd
+      {| kid_version := 1; kid_flags := 0; kid_l0 := 361; kid_l1 := 12; kid_l2 := 31; kid_rkid := ex_rk; kid_key_info := [];
+         kid_domain := []; kid_forest := [] |} = (Ok env, t) /\
+    tr_getkey_request t = Some (wire, Some args) /\ tr_port t = Some 49664 /\ tr_sign t = true /\
+    length (tr_isd_binds t) = 2%nat /\
+    (gke_l0 env, gke_l1 env, gke_l2 env) = (361, 12, 31) /\ len (gke_l1_key env) = 64 /\ gke_l2_key env = [] /\
+    wf_env env = true /\
+    wf_getkey (gk ex_sd (Some ex_rk) 361 12 31) = true /\
+    get_key_conversation Async ex_wrap ex_unwrap ex_pv ex_legs ex_dc ex_sd (Some ex_rk) 361 12 31 = (Ok env, t).
+Proof. exact conversation_runs. Qed.
+Example C17_conforming_reply_example :
+  exists e out reply, wf_env e = true /\ GroupKeyEnvelope_pack e = Ok out /\ ndr64_getkey_reply out 0 = Some reply /\
+    process_get_key_result (reply ++ repeat 0 5) (Some 5) = Ok e.
+Proof. exact conforming_reply_exists. Qed.
